@@ -15,6 +15,7 @@ import Rc.Drv.C12
 import Rc.Drv.C06
 import Rc.Drv.C05
 import Rc.Drv.C14
+import Rc.Drv.C08
 import Rc.Drv.C18
 
 def dispatch (prop : String) : Option (List String → String) :=
@@ -31,6 +32,7 @@ def dispatch (prop : String) : Option (List String → String) :=
   | "C06" => some Rc.Drv.C06.handle
   | "C05" => some Rc.Drv.C05.handle
   | "C14" => some Rc.Drv.C14.handle
+  | "C08" => some Rc.Drv.C08.handle
   | "C18" => some Rc.Drv.C18.handle
   | _ => none
 
